@@ -4,11 +4,13 @@ S1(col, step) == [t |-> "single", col |-> col, step |-> step, first |-> 0, strid
 SQ(col, first, stride, n) == [t |-> "seq", col |-> col, step |-> 0, first |-> first, stride |-> stride, n |-> n]
 PA(col, first, stride) == [t |-> "periodic", col |-> col, step |-> 0, first |-> first, stride |-> stride, n |-> 0]
 
-ShapesQuick == { <<"sum">>, <<"mul2", "id">>, <<"sum", "cube">>, <<"per", "mul2">>, <<"pcol", "mulper">>,
+ShapesQuick == { <<"sum">>, <<"pcol", "sum">>, <<"mul2", "id">>, <<"sum", "cube">>, <<"per", "mul2">>, <<"pcol", "mulper">>,
                  <<"mul2per2", "sum">>, <<"id", "sum", "mul2">> }
 ShapesMore  == ShapesQuick \cup { <<"d5">>, <<"cube", "per">>, <<"pcol", "sum", "mulper">>, <<"mul2", "mul2">> }
 AssertsQuick == { <<S1(0, 0)>>, <<S1(0, 0), S1(0, 7)>>, <<SQ(0, 1, 2, 4)>>, <<S1(0, 0), SQ(0, 3, 4, 2)>>,
-                  <<PA(0, 1, 4), S1(1, 0)>>, <<S1(1, 6), S1(0, 0)>> }
+                  <<PA(0, 1, 4), S1(1, 0)>>, <<S1(1, 6), S1(0, 0)>>,
+                  \* assertions whose last instances fall into the exempt rows (only the assertion constrains them)
+                  <<PA(0, 3, 4), S1(1, 7)>>, <<SQ(0, 1, 2, 4), S1(1, 0)>> }
 AuxQuick == { <<>>, <<[width |-> 1, rands |-> 1, src |-> <<0>>]>> }
 AuxMore  == AuxQuick \cup { <<[width |-> 2, rands |-> 2, src |-> <<1, 0>>]>> }
 =============================================================================
